@@ -181,6 +181,19 @@ fn gen_world(t: &mut Tape) -> WorldSpec {
             stdin.extend_from_slice(format!("bulk line number {} of the large input\n", i).as_bytes());
         }
     }
+    // a separate first top-level block that says and listens (two blank
+    // lines end it): whatever follows - also a syntax error - is another block
+    if t.chance(1, 5) {
+        let mut pre = (*t.pick(&[
+            "Say \"prologue\"\n\n\n",
+            "Say \"prologue\"\nListen\nSay \"heard\"\n\n\n",
+            "Listen to Opening\nSay Opening\n\n\n",
+        ]))
+        .as_bytes()
+        .to_vec();
+        pre.extend_from_slice(&source);
+        source = pre;
+    }
     // control characters inside string literals (they reach say output, the
     // syntax tree, and the texts the lint quotes)
     if t.chance(1, 8) && source_kind != "parse error on a chosen line" {
